@@ -1467,6 +1467,11 @@ class Workflow(Trellis):
         role = FILE_ROLE_BY_STATE[FileState(state)]
         return Claim(role, self.node_from_row(creator_i, creator_kind, creator_label))
 
+    def _claims_already(self, creator: Node, path: str, role: FileRole) -> bool:
+        """Return whether `creator` already claims `path` in `role`."""
+        claim = self._existing_claim(path)
+        return claim is not None and claim.role == role and claim.creator.i == creator.i
+
     def _check_declaration(self, creator: Node | str, path: str, role: FileRole) -> bool:
         """Check an intended declaration of `path` against the claim that already exists.
 
@@ -2197,15 +2202,21 @@ class Workflow(Trellis):
         # This is done before the glob check because such an amendment adds nothing to the graph
         # and must therefore not be able to fail.
         out_paths = [
-            path for path in out_paths if self._check_declaration(step, path, FileRole.OUTPUT)
+            path for path in out_paths if not self._claims_already(step, path, FileRole.OUTPUT)
         ]
         vol_paths = [
-            path for path in vol_paths if self._check_declaration(step, path, FileRole.VOLATILE)
+            path for path in vol_paths if not self._claims_already(step, path, FileRole.VOLATILE)
         ]
+        # The glob check comes before the claim check, like in `define_step`,
+        # so that the same conflict is reported whichever declaration arrives last.
+        self._raise_if_glob_match(step.label, out_paths + vol_paths)
+        for path in out_paths:
+            self._check_declaration(step, path, FileRole.OUTPUT)
+        for path in vol_paths:
+            self._check_declaration(step, path, FileRole.VOLATILE)
         _raise_if_out_and_vol_overlap(
             _creator_phrase(Step.kind(), step.label), out_paths, vol_paths
         )
-        self._raise_if_glob_match(step.label, out_paths + vol_paths)
 
         # Create out_paths
         for out_path in out_paths:
